@@ -40,6 +40,20 @@ def model_specs(tier):
             if abs(s["sim"][2] - dt) < 1e-12 and tm["struct"] in ("group", "group_junction2", "group_resjunction", "two_pops") and tm["D"] in ("3dt", "2.5dt") and tm["extra"] == 0.3 and tm["ainit"] == 60.0:
                 yield f"timed_{tm['struct']}_{tm['D']}", dt, s
         yield "state_prog", dt, c06.model("state", dt, "three", 1.0, 1.0, "both", True, None)
+    # step sizes that do not survive the 16 significant digits of a spreadsheet (the saved state carries its dt as metadata)
+    for dt in (1 / 52, 1 / 24):
+        for s in simspace.timed("thorough"):
+            tm = s["timed"]
+            if abs(s["sim"][2] - 1 / 52) < 1e-12 and tm["struct"] in ("group_resjunction", "single") and tm["D"] == "3dt" and tm["extra"] == 0.3 and tm["ainit"] == 60.0:
+                s2 = copy.deepcopy(s)
+                k = dt / s["sim"][2]
+                s2["sim"] = [s["sim"][0], s["sim"][0] + 12 * dt, dt]
+                for p in s2["pars"]:
+                    if p["name"] == "dur":
+                        p["val"] = 3 * dt
+                    if p["name"] == "ex":
+                        p["val"] = 0.3
+                yield f"timed_{tm['struct']}_dt{round(1 / dt)}", dt, s2
         yield "agg", dt, c06.model("agg", dt, "three", 0.5, 1.5, "none", False, None)
 
 
